@@ -741,3 +741,82 @@ def check_C14(sc, v, tier, seed, replay):
     def key(r, e):
         return "Decode:%s:%s" % (e.get("kind", "")[:8], r["why"].split(" a ")[0][:40])
     _reject_to_violation(v, rejects, key)
+
+
+# ------------------------------------------------------------------------------------------------
+# C18  configuration file and command line
+# ------------------------------------------------------------------------------------------------
+def _cli_run(sc, emu, name, argv, scn, text):
+    import subprocess
+    import time
+    import online
+    d = os.path.join(sc.work, name)
+    os.makedirs(d)
+    online.write_config(os.path.join(d, "config.yaml"), scn, text)
+    sock = os.path.join(d, "ctl.sock")
+    pump = os.path.join(sc.bin, "pump")
+    pp = subprocess.Popen([pump, "serve", "-sock", sock, "-dir", d, "-emu", emu, "-log", os.path.join(d, "pump.ndjson"), "--"] + list(argv),
+                          stdout=subprocess.DEVNULL, stderr=subprocess.DEVNULL)
+    try:
+        for _ in range(100):
+            if os.path.exists(sock):
+                break
+            time.sleep(0.05)
+        subprocess.run([pump, "ctl", "-sock", sock, "recv", "0", os.path.join(d, "ul0.json"), "2500"], capture_output=True, timeout=30)
+        r = subprocess.run([pump, "ctl", "-sock", sock, "stdout"], capture_output=True, text=True, timeout=30)
+        st = json.loads(r.stdout.strip().splitlines()[-1])
+    finally:
+        try:
+            subprocess.run([pump, "ctl", "-sock", sock, "quit"], capture_output=True, timeout=10)
+            pp.wait(timeout=5)
+        except Exception:
+            pp.kill()
+    return {"ev": "Cli", "id": name, "argv": list(argv), "trafficMode": st["trafficMode"], "testMode": st["testMode"], "usage": st["usage"],
+            "nul": st["nul"], "exited": st["exited"], "code": st["code"]}
+
+
+def check_C18(sc, v, tier, seed, replay):
+    import concurrent.futures as cf
+    import itertools
+    import random
+    import online
+    rnd = random.Random(seed * 1031 + 18)
+    # (a) key by key through the real loader
+    sc.build(["rec-config"])
+    trace = os.path.join(sc.work, "config.ndjson")
+    sc.run("rec-config", ["-seed", seed, "-tier", tier, "-out", trace])
+    # (c) argument vectors of length 0..3
+    emu = online.prepare(sc)
+    words = ["-t", "-x", "", "-t -t"]
+    argvs = [()] + [(a,) for a in words] + list(itertools.product(words, repeat=2))
+    triples = list(itertools.product(words, repeat=3))
+    argvs += triples if tier != "quick" else rnd.sample(triples, 8)
+    scn, text = online.make_scenario(rnd, {"reg": 1, "pdu": 0, "svc": 0, "rel": 0, "dereg": 0})
+    with cf.ThreadPoolExecutor(max_workers=12) as ex:
+        clis = list(ex.map(lambda x: _cli_run(sc, emu, "cli%03d" % x[0], x[1], scn, text), enumerate(argvs)))
+    with open(trace, "a") as f:
+        for c in clis:
+            f.write(json.dumps(c) + "\n")
+    results, rejects, lines = vlib.validate_trace(sc, "TraceConfig", trace)
+    v.add_tlc(results)
+    v.traces = len(results)
+    evs = [json.loads(l) for l in lines]
+    v.evaluations = len(evs)
+    for e in evs:
+        v.distinct.add(hash(canon(e.get("assignS", e.get("argv"))) + canon(e.get("assignI", ""))))
+    # (b) on the wire: complete runs with random configurations judged by the TLC AMF (same machinery as C01/C02)
+    jobs = []
+    for i in range(2 if tier == "quick" else 12):
+        counts = {"reg": 1 + i % 2, "pdu": 1, "svc": i % 2, "rel": 1 - i % 2, "dereg": 1}
+        s2, t2 = online.make_scenario(rnd, counts)
+        jobs.append(("wire%02d" % i, s2, t2))
+    runs = online.run_many(sc, emu, jobs, parallel=8)
+    _online_collect(v, runs, "C18")
+    v.samples = [{k: evs[0][k] for k in ("assignS", "assignI")}, clis[1], {"wire_run_cfg": runs[0]["scn"]["cfg"]}]
+    v.rule = ("(a) seeded assignments of all 24 documented keys (leading zeros, upper/lower-case hex, empty strings, escapes in gnb_id, 150-char names, "
+              "ports 0/65535, counts 0/1/large; keys written in random order) loaded by the real GetConfiguration and compared key by key; "
+              "(b) complete runs of the real process with random configurations judged on the wire by the TLC AMF (SUCI, PLMN, gNB id/name, RES*, "
+              "S-NSSAI, GTP address, procedure counts, N2 addresses and ports via hook H1); (c) argument vectors of length 0..3 over "
+              "{-t, -x, '', '-t -t'} (all of length <= 2, sampled|all of length 3): banner / usage / N2 traffic; distinct = distinct assignment or argv")
+    v.assumptions = ["YAML is written by the harness's own emitter (double-quoted scalars)", "interface names are only checked at structure level (traffic mode cannot start in the sandbox)"]
+    _reject_to_violation(v, rejects, lambda r, e: "%s:%s" % (e.get("ev"), r["why"][:60]))
